@@ -502,7 +502,17 @@ pub fn eval_unit_name(
                         "Exponents must be dimensionless".to_string(),
                     ));
                 }
-                let right = right.value.to_f64();
+                let right: i32 = right
+                    .value
+                    .as_bigint()
+                    .and_then(|value| value.as_int())
+                    .and_then(|value| <i32 as std::convert::TryFrom<i64>>::try_from(value).ok())
+                    .ok_or_else(|| {
+                        QueryError::generic(
+                            "Exponents in the right hand side of conversions must be integers"
+                                .to_string(),
+                        )
+                    })?;
                 let (left_unit, left_value) = eval_unit_name(ctx, &binop.left)?;
                 Ok((
                     left_unit
@@ -516,7 +526,7 @@ pub fn eval_unit_name(
                             }
                         })
                         .collect::<BTreeMap<_, _>>(),
-                    left_value.pow(right as i32),
+                    left_value.pow(right),
                 ))
             }
             BinOpType::ShiftL => todo!(),
